@@ -207,6 +207,36 @@ class Verifier:
                     for k in ("nondet_int", "nondet_bool"):
                         if k in m.ns and m is not nd:
                             m.ns[k] = nd.ns[k]
+        ab = self.interp.modules.get("spec.abstract")
+        if ab is not None:
+            from .sym import BX, mk_rope, Rope as _Rope
+            from .objs import IFunc as _IFunc
+
+            def vkey(v):
+                if isinstance(v, (SInt, SBool)):
+                    return ("t", T(v).sexpr())
+                if isinstance(v, _Rope):
+                    return ("r", v.kind, tuple(repr(ch) for ch in v.chunks))
+                if isinstance(v, (list, tuple)):
+                    return ("l", tuple(vkey(x) for x in v))
+                if isinstance(v, dict):
+                    return ("d", tuple((k, vkey(x)) for k, x in v.items()))
+                if isinstance(v, (IObj, IClass)):
+                    return ("o", id(v))
+                return ("c", repr(v))
+
+            def bytes_of(interp_, args, kwargs):
+                fn = args[0]
+                name = fn.qualname if isinstance(fn, _IFunc) else repr(fn)
+                key = ("abstract", name, tuple(vkey(a) for a in args[1:]))
+                c = ctx()
+                import hashlib
+                ln = z3.Int("abslen_" + hashlib.md5(repr(key).encode()).hexdigest()[:12])
+                if key not in c.ghost:
+                    c.ghost[key] = True
+                    c.assume(ln >= 0)
+                return mk_rope("bytes", [BX(key, ln)])
+            ab.ns["bytes_of"] = INative("spec.abstract.bytes_of", bytes_of, raw=True)
         sq = self.interp.modules.get("spec.seq")
         if sq is not None:
             from .objs import IGen
@@ -313,7 +343,15 @@ class Verifier:
                 raise OutOfReach(f"requires clause of {cand.id} is not boolean")
             self.check(f"callsite/{cand.id}/requires#{i}", t)
             ctx().assume(t)
-        return self.interp.eval(ast.parse(cand.ref, mode="eval").body, env)
+        from .lib import _has_sym
+        use_abs = cand.callsite_ref and any(_has_sym(v) for v in bound.values())
+        result = self.interp.eval(ast.parse(cand.callsite_ref if use_abs else cand.ref, mode="eval").body, env)
+        if cand.callsite_ensures:
+            env2 = Env(vars=dict(vars_, result=result), glob=self.interp.builtins)
+            for e in cand.callsite_ensures:
+                t = ops.truth_term(self.interp.eval(ast.parse(e, mode="eval").body, env2))
+                ctx().assume(t)
+        return result
 
     # ------------------------------------------------------------------ loop cut points
     def _loop_ordinal(self, fn, node):
